@@ -676,6 +676,7 @@ ASSUME /\ NPow(Two, 31) = P31 /\ NPow(Two, 32) = P32 /\ NPow(Two, 53) = P53
        /\ NDivMod(P64, T20) = <<Zero, P64>> /\ NDivMod(NMul(P64, T20), P64) = <<T20, Zero>>
        /\ NGcd(NMul(P62, <<21>>), NMul(T20, <<35>>)) = NMul(NPow(Two, 20), <<7>>)
 
+D28(k) == NMulSmall(NPow(Two, 28), k)             \* k * 2^28
 Ip(n) == QInt(FALSE, n)
 In(n) == QInt(TRUE, n)
 Rp(n, d) == MkQ(FALSE, n, d)
@@ -695,13 +696,25 @@ EX == << QZ, Ip(One), In(One), Ip(Two), In(Two), Ip(<<3>>), In(<<7>>), Ip(<<10>>
          Rp(One, Two), Rn(One, Two), Rp(Two, <<3>>), Rn(<<7>>, <<3>>),
          Rp(NSub(P31, One), Two), Rp(P31, <<3>>), Rn(NAdd(P31, One), Two), Rp(<<3>>, P31),
          Rp(NSub(P63, One), Two), Rn(P63, <<3>>), Rp(<<3>>, P63),
-         Rp(T20, <<3>>), Rn(<<3>>, T20), Rp(NAdd(T40, One), P64), Rn(NAdd(P64, One), T20) >>
+         Rp(T20, <<3>>), Rn(<<3>>, T20), Rp(NAdd(T40, One), P64), Rn(NAdd(P64, One), T20),
+         \* boundaries of 32-bit INTERMEDIATES (operands and often the reduced result fit 32-bit
+         \* components, but the lcm of the denominators, a scaled numerator or a product does not):
+         \*   1/(3*2^28) + 1/(5*2^28) = 1/(15*2^25)  fits again;  1/(3*2^28) + 1/(7*2^28) = 5/(21*2^27) does not
+         \*   x + x, x - (-x), x / (2x) for x = (2^31-1)/4;  (2^31-1)/k * k/(2^31-1) = 1 (cross-cancellation)
+         \*   -2^31/3: numerator i32::MIN;  46341/2: the square leaves 32 bits, 46340/3: it does not
+         Rp(One, D28(3)), Rp(One, D28(5)), Rp(One, D28(7)),
+         Rp(NSub(P31, One), <<4>>), Rn(NSub(P31, One), <<4>>), Rp(Two, NSub(P31, One)),
+         Rn(P31, <<3>>), Rp(NSub(P31, One), <<3>>), Rp(<<3>>, NPow(Two, 30)),
+         Rp(<<6341, 4>>, Two), Rp(<<6340, 4>>, <<3>>) >>
 NI == 37
 NX == Len(EX)
 ASSUME \A i \in 1..NX : (EX[i].den = One) <=> (i <= NI)
 
 \* reduced operand set for calls with three and more operands (indexes into EX)
-RX == <<1, 2, 3, 22, 24, 25, 27, 28, 30, 33, 38, 41, 46, 49>>
+RX == <<1, 2, 3, 22, 24, 25, 27, 28, 30, 33, 38, 41, 46, 49, 53, 56>>
+ASSUME QStr(EX[53]) = "1/805306368" /\ QStr(EX[54]) = "1/1342177280" /\ QStr(EX[56]) = "2147483647/4"
+       /\ QStr(EX[59]) = "-2147483648/3" /\ QStr(EX[62]) = "46341/2"
+       /\ QStr(QAdd(EX[53], EX[54])) = "1/503316480" /\ QStr(QAdd(EX[53], EX[55])) = "5/2818572288"
 \* exponents for expt, shift amounts for arithmetic-shift (TLC integers)
 EXPS   == <<0, 1, 2, 3, 4, 7, 8, 31, 62, 63, 64, 65, -1, -2, -3, -63, -64>>
 SHIFTS == <<0, 1, 2, 31, 32, 61, 62, 63, 64, 65, -1, -2, -62, -63, -64, -65>>
@@ -803,6 +816,10 @@ S2NArgs(q, v) == <<StrLit(S2NText(q, v))>> \o (CASE v = "hex" -> <<"16">> [] v =
 (*  glob / fnglob   operands are global variables (read at top level /     *)
 (*           inside a function)                                            *)
 (*  if / fnif / fniflitR   result consumed as a branch condition           *)
+(*  opqC / fnC / fnaccC   like opq / fn / fnacc, but the exact result is    *)
+(*           observed through equal? / = / hashing against the expected    *)
+(*           value read as a literal (canonical representation), not       *)
+(*           through printing                                              *)
 
 RECURSIVE JoinSp(_)
 JoinSp(xs) == IF xs = << >> THEN "" ELSE " " \o xs[1] \o JoinSp(Tail(xs))
@@ -824,6 +841,21 @@ Globals(es, i) == IF i > Len(es) THEN ""
 \* with its exact decimal expansion
 NeedsEq(r) == r.t = "fl" /\ ~FShort(r.f)
 
+\* Canonical REPRESENTATION of an exact result, observed without going through printing: a result
+\* that prints like the expected value but is held in the wrong representation (a big ratio whose
+\* components fit 32 bits again, a bignum that fits a fixnum, an unreduced ratio) is not `equal?` to,
+\* not `=` to and does not hash like the same value read as a literal.  (`eqv?` is left out: in Steel
+\* it is pointer equality on ratios and bignums, a finding of property C11, so it says nothing here.)
+\* Exact results only (and lists of two exact results through equal? / hashing); inexact and NaN excluded.
+CanonObservable(r) == r.t \in {"ex", "list"}
+CanonLit(r) == IF r.t = "ex" THEN QStr(r.q) ELSE "(list " \o QStr(r.x) \o " " \o QStr(r.y) \o ")"
+CanonObs(e, r) ==
+  LET L == CanonLit(r) IN
+  "((lambda (c10r) (list (equal? c10r " \o L \o ")"
+     \o (IF r.t = "ex" THEN " (= c10r " \o L \o ")" ELSE "")
+     \o " (hash-contains? (hash " \o L \o " 1) c10r))) " \o e \o ")"
+CanonExpected(r) == IF r.t = "ex" THEN "(#true #true #true)" ELSE "(#true #true)"
+
 Shapes(o, ls, r, full) ==
   LET n   == Len(ls)
       xs  == [i \in 1..n |-> "x" \o ToString(i)]
@@ -843,6 +875,10 @@ Shapes(o, ls, r, full) ==
                  T("opq", "", Em(Call(o, oq)), txt),
                  T("apply", "", Em("(apply " \o o \o " (list" \o JoinSp(oq) \o "))"), txt),
                  T("fn", Def(xs, Call(o, xs)), Em(Call(F, oq)), txt) >>
+      canon == IF CanonObservable(r)
+               THEN << T("opqC", "", "(emit " \o CanonObs(Call(o, oq), r) \o ")", CanonExpected(r)),
+                       T("fnC", Def(xs, Call(o, xs)), "(emit " \o CanonObs(Call(F, oq), r) \o ")", CanonExpected(r)) >>
+               ELSE << >>
       litr == IF n >= 2
               THEN << T("fnlitR", Def(Front(xs), Call(o, Front(xs) \o <<ls[n]>>)), Em(Call(F, Front(oq))), txt) >>
               ELSE << >>
@@ -867,7 +903,7 @@ Shapes(o, ls, r, full) ==
                        THEN << T("fniflitR", Def(Front(xs), TF(Call(o, Front(xs) \o <<ls[n]>>))),
                                  "(emit " \o Call(F, Front(oq)) \o ")", tf) >>
                        ELSE << >>)
-  IN IF full THEN base \o litr \o more \o lits \o cond ELSE base \o litr
+  IN IF full THEN base \o canon \o litr \o more \o lits \o cond ELSE base \o canon \o litr
 
 \* Accumulation shapes (family "iter"): acc := (o acc x), three times, starting from a.  The
 \* accumulator changes representation while the same (native) code runs: fixnum -> bignum,
@@ -884,6 +920,9 @@ IterShapes(o, la, lx, r) ==
           "(emit " \o Call(F, <<A, X>>) \o ")", txt),
         T("fnacc", "(define (" \o F \o " k acc x) (if (<= k 0) acc " \o Call(F, <<"(- k 1)", Step("acc", "x"), "x">>) \o "))",
           "(emit " \o Call(F, <<"3", A, X>>) \o ")", txt),
+        T("fnaccC", "(define (" \o F \o " k acc x) (if (<= k 0) acc " \o Call(F, <<"(- k 1)", Step("acc", "x"), "x">>) \o "))",
+          "(emit " \o (IF CanonObservable(r) THEN CanonObs(Call(F, <<"3", A, X>>), r) ELSE Call(F, <<"3", A, X>>)) \o ")",
+          IF CanonObservable(r) THEN CanonExpected(r) ELSE txt),
         T("fnacclit", "(define (" \o F \o " k acc) (if (<= k 0) acc " \o Call(F, <<"(- k 1)", Step("acc", lx)>>) \o "))",
           "(emit " \o Call(F, <<"3", A>>) \o ")", txt),
         T("namedlet", "",
